@@ -69,6 +69,32 @@ claim("C11", "other",
       "canonical-form evaluation of every trait item + reference-semantics comparison on the ordering lattice",
       "DESIGN.md 5.C11")
 
+claim("C05", "other",
+      "Abstract evaluation of all 20 public drivers with an opaque closure (element-uniform vectors, symbolic indices): what the closure receives is the input with the unit direction e_k seeded on element k (Kronecker delta on the loop counter / the i,j,k parameters) in the declared shape and nothing else; the returned tuple lists the result's parts in declared order, row-vector parts transposed, absent parts as zeros; jacobian[(i,j)] is part j of output i and partial_hessian is M x N; an Err from the closure is returned unchanged; infallible wrappers equal the try_ variants on Ok. Thorough tier adds a compile_fail,E0308 witness (with compiling twin) pinning the Jacobian / partial-Hessian orientation at the type level. The derivative values themselves are C03.",
+      "trusted: rustc type checker and name resolution, the exporter, the interpreter; loops over the inputs are element-uniform (one evaluation per symbolic index)",
+      "abstract interpretation of typed HIR with an opaque closure + compile-fail witness",
+      "DESIGN.md 5.C05")
+claim("C13", "other",
+      "Static rules: to_superset / from_superset_unchecked convert every part exactly once with the matching element conversion and preserve absence; sibling coherence: for every presence case and every assignment of per-part membership, from_superset(e).is_some() == is_in_subset(e) (Derivative, Dual, DualVec, Dual2, Dual2Vec); lifting a float gives a constant, extraction the real part; the two unsafe element-wise loop nests match the bounded fully-initialising template (ranges are exactly 0..nrows/0..ncols of the source, row/column variables in their own slots of the unchecked read and write, one unconditional write per element, assume_init only after the nest); the remaining unsafe code is enumerated (trait methods forwarding to the same-named unsafe method).",
+      "trusted: rustc type checker and name resolution, the exporter, the interpreter; element conversions of the inner type are coherent (induction); nalgebra's uninit/get_unchecked contracts",
+      "Option-semantics abstract interpretation + contradiction rule between sibling methods + template-with-slots rule for unsafe loops",
+      "DESIGN.md 5.C13")
+claim("C16", "other",
+      "Structural rules over the expanded serde derive code (serde configuration) of Dual, Dual2, Dual3, HyperDual, HyperHyperDual: Serialize announces the struct under its own name with exactly the data fields and writes each once under its own identifier in declared order; Deserialize accepts exactly those keys and maps key -> variant -> local -> struct field of the same name, reads positional elements in the same order, and defaults only the PhantomData marker; both derives exist; the inner type is serialized through its own impl. Bit-exactness of the textual float representation belongs to the data format.",
+      "trusted: rustc expansion and type checker (the derive output as compiled), the exporter, the structural walkers",
+      "structural rules on the type-checked derive expansion (typed HIR)",
+      "DESIGN.md 5.C16")
+claim("C17", "other",
+      "Structural + canonical-form rules over the pyo3 wrapper layer (python configuration, 56 classes): 1736 named methods are exactly self.0.<mapped Rust item>(args in order).into(); 224 binary dunders compute self.0 OP r with their own operator and self on the left in every extract branch; 280 reflected operators / negations evaluate to the canonical form of lhs OP self; __pow__ tries i32->powi, f64->powf, Self->powd in order; constructors are positional; 55 length-dispatched driver arms use one length for the array, the SVector types and the class, call the try_ function of their own name and convert matrices by rows; all 10 #[pyfunction]s and every constructible class are registered. The embedded interpreter and numpy object arrays at run time are NOT decided.",
+      "trusted: rustc expansion and type checker (pyo3 macro output as compiled), the exporter, structural walkers, name table A.6",
+      "forwarding / who-calls-what rules on resolved callees of the typed HIR + canonical-form evaluation of reflected operators",
+      "DESIGN.md 5.C17")
+claim("C18", "other",
+      "Display::fmt of all 8 types (Derivative::fmt inlined) is evaluated against an output-buffer formatter using the FormatArgs templates of the expanded AST: along every path (all presence patterns; unit vs non-unit dimensions) the token sequence is the real part, then for every present part in declared order exactly once ` + `, all its elements (single element only under the 1x1 guard), a non-empty symbol; absent parts print nothing; placeholders are plain Display; symbols are pairwise distinct, parse-safe after a number and equal to the documented ones; __repr__ forwards to to_string (thorough, python configuration). Float-to-string round trip is a std guarantee.",
+      "trusted: rustc parser/expander (FormatArgs), the exporter, the interpreter; nalgebra's matrix Display prints every element",
+      "abstract interpretation with an output-buffer domain over typed HIR + expanded-AST format templates",
+      "DESIGN.md 5.C18")
+
 ALL = ["C%02d" % i for i in range(1, 19)]
 for pid in ALL:
     if pid not in CHECKS:
